@@ -230,13 +230,14 @@ _ALL = {
         technique="interprocedural mod/ref + freshness analysis",
     ),
     "C20": dict(
-        want=["T1b", "D5", "P1", "N1", "P18", "P19", "D5b", "P23", "P24"],
+        want=["T1b", "D5", "P1", "N1", "P18", "P19", "D5b", "P23", "P24", "NV1", "ND1", "PC1"],
         explanation=("Decides the structure of the stand-alone reducers: binary reducer tables (T1b); reducer name -> (initial "
                      "value, chunk-combine reducer) table and null-skipping combine stage (D5); view/convert pairing in "
                      "reduce_1d (P1); null-skip shape of the chunk reducer (N1)."
                      ' Also: the prologue of _nb_reduce (start index and accumulator per case, all-null exit) and the first-non-null scan (N1); per-thread chunks cover the array (P18); the array handed to searchsorted is sorted on every path (P19).'
-                     ' Per-thread partial results keep the dtype the reducer produced (D5b); bools_to_categorical packs and decodes the same frame (P23); temporal integer views only after unit normalisation (P24).'),
-        not_decided=["equality with NumPy, 2-D axis handling, nb_dot, bools_to_categorical, pretty_cut (value-level)"],
+                     ' Per-thread partial results keep the dtype the reducer produced (D5b); bools_to_categorical packs and decodes the same frame (P23); temporal integer views only after unit normalisation (P24).'
+                     ' The composites: nanmean = nansum/count, nanvar = (SS - S^2/n)/(n - ddof) in canonical arithmetic with all three parts over the same array / axis / skipna / threads, nanstd = nanvar ** 0.5 (NV1); the matrix-vector kernel accumulates a[col][row]*b[col] into a zero-initialised out[row] from a list of columns (ND1); pretty_cut bins with the side that matches its printed right-closed bounds, nulls to no bin, one label per code (PC1).'),
+        not_decided=["floating-point equality with NumPy, 2-D axis handling, label formatting of pretty_cut (value-level)"],
         technique="GCNF tables; dispatch folding; path pairing",
     ),
 }
